@@ -66,6 +66,7 @@ type Scenario struct {
 	Procs  int      `json:"procs,omitempty"`  // GOMAXPROCS of the worker = blocks per fetch of the searcher = hits per batch reaching head/scroller (0: default)
 	Scroll []ScrollCase `json:"scroll,omitempty"` // stream "scroll" (paging.go): only these cases are run
 	Raw    []string `json:"raw,omitempty"`    // raw paged reads to record: "*" (the window, as the dependency graph / RED read it) or a trace id (as the span tree reads it)
+	Agg    *AggPlan `json:"agg,omitempty"`    // the spans arrive in periods, each followed by the hourly dependency-graph job (aggworker.go)
 }
 
 type SearchObs struct {
@@ -137,6 +138,7 @@ type WorkerObs struct {
 	Raw    map[string]*RawObs        `json:"raw,omitempty"`
 	Scroll []ScrollObs               `json:"scroll,omitempty"`
 	ReqMs  []uint64                  `json:"req_ms,omitempty"` // OwnTs: the millisecond clock read just before every OTLP request (after it had moved on)
+	Agg    *AggObs                   `json:"agg,omitempty"`
 }
 
 func initNode(dir string) error {
@@ -259,7 +261,13 @@ func runScenarioWorker(sc *Scenario) *WorkerObs {
 	// ingest through the real OTLP path
 	pos := 0
 	lastMs := uint64(0)
+	if sc.Agg != nil { // period by period, the hourly job after each (aggworker.go)
+		runAggWorker(sc, o)
+	}
 	for bi, n := range sc.Batches {
+		if sc.Agg != nil {
+			break
+		}
 		if pos+n > len(sc.Spans) {
 			n = len(sc.Spans) - pos
 		}
